@@ -144,7 +144,7 @@ def install(names, ev=None):
                 state["in_lines"] = outer
             ev.lines_calls += 1
             try:
-                model, final = lines_oracle.model_write_lines(snapshot, indent0)
+                model, final = lines_oracle.model_write_lines(snapshot, indent0, spaces)
             except Exception:
                 return None
             got = _merge_raw(rec)
